@@ -11,7 +11,7 @@ St(ind, shape, style, dir) == [t |-> "stmt", ind |-> ind, n |-> 0, shape |-> sha
 Single == {"one", "expr", "semi", "cmt"}
 
 Multi  == {"ml2", "mlx2", "ml3", "cmp2", "cmp3", "deco3"}
-StyleOf(shape) == IF shape = "pair2" THEN {"c"} ELSE IF shape \in Single \cup {"star"} \cup {"tri3", "braw3", "badone", "trunc2"} THEN {"a"}
+StyleOf(shape) == IF shape = "pair2" THEN {"c"} ELSE IF shape \in Single \cup {"star", "asg", "echo", "prn", "exc"} \cup {"tri3", "braw3", "badone", "trunc2"} THEN {"a"}
                   ELSE IF shape \in {"cmp2", "cmp3", "deco3"} THEN {"a", "c", "t"} ELSE {"a", "c"}
 Stmts(inds, shapes, dirs) == {St(i, s, y, d) : i \in inds, s \in shapes, y \in {"a", "c", "t"}, d \in dirs} \ 
                              {b \in [t : {"stmt"}, ind : inds, n : {0}, shape : shapes, style : {"a", "c", "t"}, dir : dirs] : b.style \notin StyleOf(b.shape)}
@@ -33,6 +33,17 @@ C01_Blocks == Stmts({0}, Single \cup Multi \cup {"tri3", "pair2"}, {"none"})
 C19_Blocks == Stmts({0}, {"one", "expr", "cmt", "ml2", "cmp2", "deco3", "tri3", "star"}, {"none"})
               \cup Stmts({0}, {"one", "cmp2"}, {"last"})
               \cup {St(0, "cmt", "a", "first"), Txt(0, 1), Txt(0, 2), Blank}
+
+\* ---- C20: standard doctest syntax: primary prompts, "..." continuations (with or without a terminating bare "..."),
+\*      the want directly under each example, blank lines and prose between examples, one common indentation
+Ex(shape, style, n, dir) == [t |-> "ex", ind |-> 0, n |-> n, shape |-> shape, style |-> style, dir |-> dir]
+C20_Blocks == {Ex("asg", "a", 0, "none"), Ex("cmt", "a", 0, "none"), Ex("echo", "a", 1, "none"), Ex("prn", "a", 1, "none"), Ex("one", "a", 1, "none"),
+               Ex("semi", "a", 2, "none"), Ex("expr", "a", 2, "none"), Ex("exc", "a", 2, "none"), Ex("exc", "a", 3, "none"),
+               Ex("ml2", "c", 1, "none"), Ex("mlx2", "c", 2, "none"), Ex("cmp2", "c", 1, "none"), Ex("cmp2", "t", 1, "none"),
+               Ex("cmp3", "c", 1, "none"), Ex("deco3", "c", 1, "none"), Ex("deco3", "t", 1, "none"), Ex("ml3", "c", 1, "none"),
+               Ex("one", "a", 1, "first"), Ex("echo", "a", 1, "first"), Ex("prn", "a", 2, "none"),
+               Ex("one", "a", 1, "opt"), Ex("prn", "a", 2, "opt"), Ex("exc", "a", 2, "opt"),
+               Txt(0, 1), Blank}
 
 \* ---- C14: malformed building blocks among good ones
 C14_Blocks == Stmts({0, 1}, {"one", "expr", "ml2", "cmp2", "tri3", "badone", "trunc2", "braw3"}, {"none"})
